@@ -1,20 +1,23 @@
 """C18 — evaluation never performs an invalid memory access
 (core/src/eval/value/{mod,lens}.rs, core/src/eval/cache/lazy.rs, core/src/eval/stack.rs)."""
 import copy
+import hashlib
 import json
 import os
 import re
 import subprocess
+import sys
 import time
 from vlib import core
 from checks import c18_translate
+from checks import c18_search
 
 META = {
     "harness_bins": ["c18"],
     "extract": "C18.v",
     "technique": "Coq proof (partial, protocols only): executable models of the manual reference counting / copy-on-write / move-out lenses / Thunk wrapper (coq/Mem/Rc.v) and of the marker-tagged byte stack (coq/Mem/Stack.v, pairings generated from stack.rs) are proved safe for every history; tied to the Rust code by differential replay with exact reference counts (hook H7), a plain-Rust shadow oracle, generated stack tables, an unsafe-site ledger, whole programs under debug assertions; Miri / AddressSanitizer only as a search",
     "level_text": "PARTIAL: a Coq proof cannot speak about the hardware; proved are the protocols whose violation IS the memory error. (1) C18_rc_protocol_safe / C18_rc_history_preserves / C18_rc_step_preserves: for EVERY history of the 30 modelled value-level operations (constructors of every block kind, clone, drop, content_make_mut / content_mut + mutation incl. the Rc::make_mut of an array's vector leaf, strong_clone, with_pos_idx, lens take (with_content: unique -> payload moved out and block released without destructor, shared -> clone) / restore, Thunk <-> NickelValue conversions, thunk get_owned / mk_update_frame / update / reset / lock / unlock / revert / build_cached / into_closure / saturate / map) no error state is reachable (use after free, double free, count underflow, clone of a dead block, &mut while shared, unchecked thunk decode of a non-thunk) and the invariant holds: count(b) = number of live handles to b (roots + payloads of live blocks, including the std Rc boxes between value blocks), freed blocks have no handle; panicking paths (expect/assert) leave the invariant intact. (2) C18_unique_access_only_when_count_1: a write through &mut happens only on a block whose count is 1. (3) C18_thunk_tag_inv: after any history every Thunk-typed handle points to a live block tagged Thunk, so the unchecked decode of Thunk::data is safe. (4) C18_stack_typed / C18_unwind_typed / C18_stack_tables_consistent: with frames_well_tagged, every pop_unchecked / read_unchecked of stack.rs (pop<T>, drop_top, unwind, pop_arg, pop_arg_as_idx, peek_sealed_cont, the marker iterator) materialises the top item at the type it was pushed at; unwind pops each item at its own type and ends empty; the marker/type pairings are GENERATED from stack.rs on every run. (5) C18_sites_all_covered: every unsafe block / fn and unchecked pop/read of stack.rs, lazy.rs, value/mod.rs, value/lens.rs is known to the ledger (new or moved site = open obligation). The models are hand-written; the tie is the correspondence run: the same generated histories on the extracted model and on nickel-lang-core (debug build), comparing after every step the contents and the EXACT reference count of every block reachable from every live handle, plus a plain-Rust shadow copy (value semantics) inside the harness; stack scripts against the real Stack through the replay hook; seeded programs (completing, failing, budget-exhausted = abandoned mid-evaluation) must not panic / abort.",
-    "level_note": "NOT proved, only sampled (debug assertions always; Miri on tiny histories and an AddressSanitizer build in the thorough tier — a report is a violation, silence is not a claim): memory layout and pointer arithmetic of value blocks, tag bit patterns and transmutes (u8 -> Marker / DataTag, NickelValue <-> Thunk repr(transparent)), pointer provenance, the allocator (addresses are never reused in the model), the pairing DataTag -> Rust type of the checked decodes (content_ref, content, as_value_data: ledger class ByTagTest), and the way the evaluator itself sequences these APIs (covered by whole programs, not by a model of the evaluator). Model restrictions: arrays of fewer than 32 elements (single-leaf vectors), environments of revertible thunks empty (no environment layering), saturate with no field, record/metadata payloads without values. Overflow of the 56-bit count stops a run (C18_overflow_needs_max_handles: needs 2^56-1 simultaneous handles; set_ref_count writes a corrupted header before panicking there: theoretical). Trusted: Coq kernel; extraction (ExtrOcamlBasic, ExtrOcamlNativeString); hook H7 (add-only: verif_ref_count, stack_replay); the syntactic translator checks/c18_translate.py (fails closed); harness c18 and the generators; std::rc::Rc, RefCell, HashMap, IndexMap, imbl-sized-chunks.",
+    "level_note": "NOT proved, only sampled (debug assertions always; Miri on tiny histories and an AddressSanitizer build in the thorough tier — a report is a violation, silence is not a claim): memory layout and pointer arithmetic of value blocks, tag bit patterns and transmutes (u8 -> Marker / DataTag, NickelValue <-> Thunk repr(transparent)), pointer provenance, the allocator (addresses are never reused in the model), the pairing DataTag -> Rust type of the checked decodes (content_ref, content, as_value_data: ledger class ByTagTest), and the way the evaluator itself sequences these APIs (covered by whole programs, not by a model of the evaluator). Model restrictions: arrays of fewer than 32 elements (single-leaf vectors), environments of revertible thunks empty (no environment layering), saturate with no field, record/metadata payloads without values. Overflow of the 56-bit count stops a run (C18_overflow_needs_max_handles: needs 2^56-1 simultaneous handles; set_ref_count writes a corrupted header before panicking there: theoretical). A broken obligation / ledger / generated table does not stop the check: the harness is still built against the working tree, the correspondence and the oracles run (with the last good extracted model, or the direct oracles alone, if the Coq development no longer extracts), and a targeted search derived from what changed (checks/c18_search.py: every primop as the pending continuation over sealed / failing / diverging arguments, bulk pushes at every fill level of the byte stack, histories biased to the changed function with a clone before it) looks for a concrete input; only if nothing dies, panics, breaks a shadow copy or a count does the broken obligation remain as no-failing-input-found (set VERIF_C18_ASAN=1 to add the AddressSanitizer build to that search). Trusted: Coq kernel; extraction (ExtrOcamlBasic, ExtrOcamlNativeString); hook H7 (add-only: verif_ref_count, stack_replay); the syntactic translator checks/c18_translate.py (fails closed); harness c18 and the generators; std::rc::Rc, RefCell, HashMap, IndexMap, imbl-sized-chunks.",
 }
 
 HOOK_FILE = os.path.join(core.REPO, "core/src/eval/value/mod.rs")
@@ -34,11 +37,14 @@ class Gen:
     """Seeded generator of value-level histories.  Keeps a light abstract copy of the roots (kind,
     class, kids) only to aim slot numbers; a wrong guess merely makes the op a skip on both sides."""
 
-    def __init__(self, rng, maxlen):
+    def __init__(self, rng, maxlen, focus=None):
         self.r = rng
         self.slots = []      # None | dict(kind='v'|'t', cls=..., kids=[...], rev=bool, cached=bool)
         self.ops = []
         self.maxlen = maxlen
+        # targeted search: categories (values of `c` in step) to favour, each one preceded by a
+        # clone of a live root half of the time (the operation then meets a count of 2)
+        self.focus = focus
 
     def live(self, pred=lambda d: True):
         return [i for i, d in enumerate(self.slots) if d is not None and pred(d)]
@@ -141,6 +147,13 @@ class Gen:
         if not self.live():
             return self.new_value()
         c = r.below(100)
+        if self.focus and r.chance(1, 2):
+            if r.chance(1, 2):
+                s0 = self.pick()
+                self.emit("cl:%d" % s0)
+                if s0 < len(self.slots) and self.slots[s0] is not None:
+                    self.push(copy.deepcopy(self.slots[s0]))
+            c = r.choice(self.focus)
         thunks = lambda d: d["kind"] == "t"
         blocks = lambda d: d["kind"] == "v" and d["cls"] not in ("inl", "thunk")
         if c < 26:
@@ -273,8 +286,8 @@ class Gen:
         return ",".join(self.ops)
 
 
-def gen_history(rng, maxlen):
-    return Gen(rng, maxlen).run()
+def gen_history(rng, maxlen, focus=None):
+    return Gen(rng, maxlen, focus).run()
 
 
 def exhaustive_small(depth):
@@ -312,12 +325,24 @@ def corpus():
 RC = re.compile(r"#\d+")
 
 
+def obligation_capped(ck, name, kind, detail, cap=3):
+    """A broken correspondence is reported a few times with details, then only counted."""
+    n = ck.stats.get("broken:" + name, 0) + 1
+    ck.stats["broken:" + name] = n
+    if n <= cap:
+        ck.obligation(name, kind, False, detail)
+
+
 def split_steps(line):
     parts = line.split(";")
     return parts[:-1], parts[-1]
 
 
-def compare_hist(ck, cases, impl_out, model_out, hook):
+def compare_hist(ck, cases, impl_out, model_out, hook, fresh_model=True):
+    """model_out None: no model available, direct oracles only (shadow copy, panic).
+    fresh_model False: the model is the last good extraction, not the current Coq development."""
+    if model_out is None:
+        model_out = [None] * len(cases)
     for case, a, b in zip(cases, impl_out, model_out):
         ops = case.split(",")
         ck.case(key=case, nontrivial=(len(ops) >= 6 and any(o.startswith(("cl", "tf", "tv")) for o in ops)))
@@ -325,7 +350,6 @@ def compare_hist(ck, cases, impl_out, model_out, hook):
         for o in ops:
             ck.hist("ops", o[:2])
         sa, ta = split_steps(a)
-        sb, tb = split_steps(b)
         for s in sa:
             ck.hist("outcome", s[:1])
         if "!SHADOW" in a:
@@ -340,9 +364,12 @@ def compare_hist(ck, cases, impl_out, model_out, hook):
                          "panic (debug assertion / overflow check / unexpected unwrap) while replaying a value-level history",
                          {"case": case, "step": i, "impl": ta[:800]})
             continue
+        if a == "<missing>" or b is None:
+            continue
+        sb, tb = split_steps(b)
         if b.startswith("!") or "!" in tb:
-            ck.obligation("model:error-state-reached", "correspondence", False,
-                          "the model reaches an error state on %s : %s" % (case, tb))
+            obligation_capped(ck, "model:error-state-reached", "correspondence",
+                              "the model reaches an error state on %s : %s" % (case, tb))
             continue
         if not tb.startswith("leak="):
             ck.obligation("model:run", "correspondence", False, "model output malformed on %s: %s" % (case, b[-200:]))
@@ -354,24 +381,51 @@ def compare_hist(ck, cases, impl_out, model_out, hook):
             xb = sb[i] if i < len(sb) else "<none>"
             # contents agree and only counts differ?
             only_counts = RC.sub("#", xa) == RC.sub("#", xb)
-            ck.obligation("correspondence:rc-model-vs-rust", "correspondence", False,
-                          "case %s\nstep %d (%s)%s\nimpl  %s\nmodel %s" % (
-                              case, i, ops[i] if i < len(ops) else "?", " [only reference counts differ]" if only_counts else "",
-                              xa[:700], xb[:700]))
+            detail = "case %s\nstep %d (%s)%s\nimpl  %s\nmodel %s" % (
+                case, i, ops[i] if i < len(ops) else "?", " [only reference counts differ]" if only_counts else "",
+                xa[:700], xb[:700])
+            if only_counts and hook and fresh_model:
+                # same contents, hence the same handles; the model's count IS the number of live
+                # handles (C18_rc_protocol_safe): the implementation's count is not
+                ck.violation("rc-mismatch:" + (ops[i][:2] if i < len(ops) else "end"),
+                             "the reference count of a block differs from its number of live handles (as counted by the proved protocol model) after a value-level operation",
+                             {"case": case, "step": i, "impl": xa[:800], "model": xb[:800],
+                              "how_to_replay": "./verif check C18 --replay <this file>"})
+            else:
+                obligation_capped(ck, "correspondence:rc-model-vs-rust", "correspondence", detail)
 
 
-def run_hist(ck, cases, hook):
+def crash_candidates(lines, outs):
+    """run_sharded feeds contiguous shards: in a shard whose process died, the first input without
+    an output line is the one being processed."""
+    n = len(lines)
+    if n == 0:
+        return []
+    size = (n + core.NPROC - 1) // core.NPROC
+    res = []
+    for start in range(0, n, size):
+        for i in range(start, min(n, start + size)):
+            if outs[i] in ("<missing>", ""):
+                res.append(lines[i])
+                break
+    return res
+
+
+def run_hist(ck, cases, hook, fresh_model=True):
     exe_impl = core.harness_bin("c18")
     rc1, impl_out, e1 = core.run_sharded(exe_impl, ["hist"], cases)
-    rc2, model_out, e2 = core.run_sharded(ck.model_exe, [] if hook else ["nohook"], cases)
+    rc2, model_out = 0, None
+    if ck.model_exe:
+        rc2, model_out, e2 = core.run_sharded(ck.model_exe, [] if hook else ["nohook"], cases)
+    hit = None
     if rc1:
-        hit = find_crasher(exe_impl, ["hist"], cases)
+        hit = find_crasher(exe_impl, ["hist"], crash_candidates(cases, impl_out)) or find_crasher(exe_impl, ["hist"], cases)
         if hit:
             ck.violation("abort:hist", "the harness process died (abort / signal) while replaying a value-level history",
                          {"case": hit[0], "stderr": hit[1]})
     if (rc1 and not hit) or rc2:
-        ck.obligation("correspondence-run", "internal", False, "rc=%s/%s %s %s" % (rc1, rc2, e1[-800:], e2[-800:]))
-    compare_hist(ck, cases, impl_out, model_out, hook)
+        ck.obligation("correspondence-run", "internal", False, "rc=%s/%s %s" % (rc1, rc2, e1[-800:]))
+    compare_hist(ck, cases, impl_out, model_out, hook, fresh_model)
     return impl_out, model_out
 
 
@@ -421,25 +475,30 @@ def gen_script(rng, maxlen):
 def run_stack(ck, scripts):
     exe_impl = core.harness_bin("c18")
     rc1, impl_out, e1 = core.run_sharded(exe_impl, ["stack"], scripts)
-    rc2, model_out, e2 = core.run_sharded(ck.model_exe, ["stack"], scripts)
+    rc2, model_out = 0, [None] * len(scripts)
+    if ck.model_exe:
+        rc2, model_out, e2 = core.run_sharded(ck.model_exe, ["stack"], scripts)
+    hit = None
     if rc1:
-        hit = find_crasher(exe_impl, ["stack"], scripts)
+        hit = find_crasher(exe_impl, ["stack"], crash_candidates(scripts, impl_out)) or find_crasher(exe_impl, ["stack"], scripts)
         if hit:
             ck.violation("abort:stack", "the harness process died (abort / signal) while replaying a script of stack operations",
                          {"stack_script": hit[0], "stderr": hit[1]})
     if (rc1 and not hit) or rc2:
-        ck.obligation("stack-correspondence-run", "internal", False, "rc=%s/%s %s %s" % (rc1, rc2, e1[-800:], e2[-800:]))
+        ck.obligation("stack-correspondence-run", "internal", False, "rc=%s/%s %s" % (rc1, rc2, e1[-800:]))
     for sc, a, b in zip(scripts, impl_out, model_out):
         ck.case(key="stack:" + sc, nontrivial=(sc.count(".") >= 5))
         ck.hist("stack_script_length", min((sc.count(".") + 1) // 10 * 10, 60))
         if a.startswith("!PANIC"):
             ck.violation("stack-panic", "the evaluation stack panicked while replaying a script of its own operations",
                          {"stack_script": sc, "impl": a[:300]})
+        elif b is None or a == "<missing>":
+            continue
         elif b.startswith("!"):
-            ck.obligation("stack-model:error-state-reached", "correspondence", False, "script %s : %s" % (sc, b))
+            obligation_capped(ck, "stack-model:error-state-reached", "correspondence", "script %s : %s" % (sc[:300], b))
         elif a != b:
-            ck.obligation("correspondence:stack-model-vs-rust", "correspondence", False,
-                          "script %s\nimpl  %s\nmodel %s" % (sc, a[:500], b[:500]))
+            obligation_capped(ck, "correspondence:stack-model-vs-rust", "correspondence",
+                              "script %s\nimpl  %s\nmodel %s" % (sc[:300], a[:500], b[:500]))
 
 
 # --------------------------------------------------------------------------- whole programs
@@ -498,24 +557,41 @@ def gen_programs(rng, n):
     return out
 
 
-def run_progs(ck, progs):
+def run_progs(ck, progs, label="prog"):
     exe_impl = core.harness_bin("c18")
     rc, outs, err = core.run_sharded(exe_impl, ["prog"], progs, timeout=1500)
     if rc:
         # a crash of the harness process itself (abort / segfault) is the property failing
-        hit = find_crasher(exe_impl, ["prog"], progs)
-        ck.violation("prog-abort", "the harness process died while evaluating a generated program (abort / signal)",
-                     {"program_line": hit[0] if hit else None, "stderr": (hit[1] if hit else err)[-1500:]})
+        cands = crash_candidates(progs, outs)
+        seen = 0
+        for cand in cands[:8]:
+            hit = find_crasher(exe_impl, ["prog"], [cand])
+            if not hit:
+                continue
+            seen += 1
+            fuel, prog = hit[0].split("\t", 1)
+            sig = hit[1].strip().split("\n")[-1][:160] if hit[1].strip() else "killed by a signal"
+            ck.violation("prog-abort:" + hashlib.sha1(prog.encode()).hexdigest()[:10],
+                         "the process died (abort / signal, no structured error) while evaluating or abandoning a program: " + sig,
+                         {"program": core_unescape(prog), "program_line": hit[0], "fuel": int(fuel), "stderr": hit[1][-2500:],
+                          "how_to_replay": "./verif check C18 --replay <this file>"})
+        if not seen:
+            ck.violation("prog-abort", "the harness process died while evaluating generated programs (abort / signal); not reproduced on a single input",
+                         {"stderr": err[-1500:]}, no_input=True)
     for p, o in zip(progs, outs):
-        ck.case(key="prog:" + p, nontrivial=True)
+        ck.case(key=label + ":" + p, nontrivial=True)
         cls = o.split(" ")[1] if o.startswith("ERR ") else o.split(" ")[0]
-        ck.hist("program_outcome", cls)
+        ck.hist("program_outcome" if label == "prog" else label + "_program_outcome", cls)
         if o.startswith("ERR Panic"):
             fuel, prog = p.split("\t", 1)
-            ck.violation("prog-panic:" + prog[:40], "panic (debug assertion / internal invariant) while evaluating or abandoning a program",
-                         {"program": prog, "fuel": int(fuel), "impl": o[:500],
-                          "how_to_replay": "printf '%s\\n' | .build/target/debug/c18 prog" % p.replace("\t", "\\t")})
+            ck.violation("prog-panic:" + hashlib.sha1(prog.encode()).hexdigest()[:10], "panic (debug assertion / internal invariant) while evaluating or abandoning a program",
+                         {"program": core_unescape(prog), "program_line": p, "fuel": int(fuel), "impl": o[:500],
+                          "how_to_replay": "./verif check C18 --replay <this file>"})
     return outs
+
+
+def core_unescape(s):
+    return s.replace("\\n", "\n").replace("\\\\", "\\")
 
 
 def thunk_eq_probe(ck):
@@ -575,11 +651,22 @@ def run(ck):
         rcc, outc = core.sh(["timeout", "1500", "coqchk", "-silent", "-o", "-Q", core.COQ, "NV", "NV.Props.C18"], cwd=core.COQ, timeout=1600)
         ck.coverage["coqchk_s"] = round(time.time() - t, 1)
         ck.obligation("coqchk NV.Props.C18", "coqchk", rcc == 0, outc[-1500:])
-    # 2. builds
+    # 2. builds.  A broken proof obligation does NOT stop here: the harness is still built against the
+    #    working tree and everything below runs as the search for a concrete failing input.
     ok = build_harness(ck, hook)
-    ck.model_exe = ck.model("C18.v")
-    if not ok or not ck.model_exe:
+    if not ok:
         return
+    last_good = os.path.join(core.BUILD, "ocaml", "c18", "modelrun")
+    had_model = os.path.exists(last_good)
+    ck.model_exe = ck.model("C18.v")
+    fresh_model = bool(ck.model_exe)
+    if not ck.model_exe:
+        if had_model:
+            # the Coq file that fails is one the extraction needs: fall back to the last good extraction
+            ck.model_exe = last_good
+            ck.coverage["model"] = "last good extraction (the current Coq development does not extract)"
+        else:
+            ck.coverage["model"] = "none: direct oracles only (shadow copy, panics, process death)"
     rng = core.SplitMix64(ck.seed * 1000003 + 18)
     # 3. value-level histories: model vs implementation (+ shadow oracle inside the harness)
     cases = corpus()
@@ -590,7 +677,7 @@ def run(ck):
         ex = exhaustive_small(3)
         ck.coverage["exhaustive_small_histories"] = len(ex)
         cases += ex
-    impl_out, model_out = run_hist(ck, cases, hook)
+    impl_out, model_out = run_hist(ck, cases, hook, fresh_model)
     for c, a in list(zip(cases, impl_out))[:2]:
         ck.sample({"history": c[:300], "impl_trace": a[:400]})
     ck.coverage["histories"] = len(cases)
@@ -624,7 +711,14 @@ def run(ck):
     ck.assumptions += ["the hand-written model of mod.rs / lens.rs / lazy.rs (tied by exact reference counts on generated histories)",
                        "std::rc::Rc, RefCell, Vec, HashMap, IndexMap, imbl-sized-chunks behave as documented",
                        "arrays of the histories have fewer than 32 elements (single-leaf vectors); environments of revertible thunks are empty"]
-    if ck.tier == "thorough":
+    # 6. targeted search when something is broken or a function of the representation changed
+    foc, why = c18_search.focus(g)
+    concrete = [v for v in ck.violations if not v["no_input"]]
+    if (ck.broken or foc) and not concrete:
+        c18_search.run(ck, sys.modules[__name__], g, foc, why, rng.fork(), hook, fresh_model)
+    elif foc:
+        ck.coverage["search_focus"] = sorted("%s::%s" % x for x in foc)
+    if ck.tier == "thorough" or (os.environ.get("VERIF_C18_ASAN") and ck.broken and not [v for v in ck.violations if not v["no_input"]]):
         sanitizers(ck, rng, cases, progs)
 
 
@@ -633,17 +727,19 @@ def replay(ck, path):
     hook = have_hook()
     pregen()
     ok = build_harness(ck, hook)
-    ck.model_exe = ck.model("C18.v")
-    if not ok or not ck.model_exe:
+    if not ok:
         return
+    last_good = os.path.join(core.BUILD, "ocaml", "c18", "modelrun")
+    had_model = os.path.exists(last_good)
+    ck.model_exe = ck.model("C18.v") or (last_good if had_model else None)
     if "case" in obj:
         run_hist(ck, [obj["case"]], hook)
     if "stack_script" in obj and hook:
         run_stack(ck, [obj["stack_script"]])
-    if "program" in obj:
-        run_progs(ck, ["%d\t%s" % (obj.get("fuel", 2000000), obj["program"])])
     if obj.get("program_line"):
         run_progs(ck, [obj["program_line"]])
+    elif "program" in obj:
+        run_progs(ck, ["%d\t%s" % (obj.get("fuel", 2000000), obj["program"].replace("\\", "\\\\").replace("\n", "\\n"))])
     if "cases" in obj:
         run_hist(ck, obj["cases"], hook)
 
